@@ -70,6 +70,12 @@ def work(tier, seed):
             items.append({"kind": "many_groups", "ncols": ncols, "ngroups": ngroups})
     for j in range(b["bootstrap_frames"]):
         items.append({"kind": "bootstrap", "which": j})
+    for base in (2**53, 2**62, -(2**53) - 8):
+        for ncols in (1, 2):
+            items.append({"kind": "bigint", "base": base, "ncols": ncols})
+    for nvals in (1300,):
+        items.append({"kind": "wide_groups", "nvals": nvals, "ncols": 3})
+    items.append({"kind": "wide_groups", "nvals": 50000, "ncols": 2})
     items.append({"kind": "errors"})
     return items
 
@@ -206,6 +212,10 @@ def run(item, ctx, tier, seed):
         return _run_bootstrap(item, ctx, b)
     if item["kind"] == "many_groups":
         return _run_many_groups(item, ctx, b)
+    if item["kind"] == "bigint":
+        return _run_bigint(item, ctx, b)
+    if item["kind"] == "wide_groups":
+        return _run_wide_groups(item, ctx, b)
     rows = make_rows(item)
     ncols, rot = item["ncols"], item["rot"]
     cfg = CFGS[rot % 4]
@@ -495,6 +505,99 @@ def _run_many_groups(item, ctx, b):
                         compare_table(ctx, case, bf.values, want, judged, tl,
                                       "entry-is-metric-of-that-groups-rows" if how is None else "normalised-entry")
     ctx.sample({"kind": "many_groups", "groups": G, "ncols": ncols})
+    return None
+
+
+def _run_bigint(item, ctx, b):
+    """int64 score column beyond 2^53 with integer thresholds: neighbouring integers must stay distinct."""
+    base, ncols = item["base"], item["ncols"]
+    offs = [0, 1, 2, 3, 1, 5, 2, 0]
+    labs = [1, 0, 1, 0, 0, 1, 1, 0]
+    rows = []
+    for i, (o, l) in enumerate(zip(offs, labs)):
+        r = {"l": l, "s": base + o, "g": ("x", "y_z", "x")[i % 3]}
+        if ncols == 2:
+            r["h"] = ("p", "q")[i % 2]
+        rows.append(r)
+    tl = [base + 2, base + 1, base + 3, base]
+    for cfg in CFGS:
+        for metric in ("tpr", "fpr", "tp", "tn", "accuracy"):
+            for threshold, tlist in ((tl, tl), (np.array(tl, dtype=np.int64), tl), (tl[0], [tl[0]])):
+                tab, overall = expected_table(rows, ncols, tlist, metric, cfg, 1)
+                for how in (None, "by_overall"):
+                    case = {"kind": "bigint", "rows": rows, "ncols": ncols, "metric": metric, "threshold": tlist, "normalize": how,
+                            "threshold_type": type(threshold).__name__, "cfg": list(cfg), "pos_label": 1}
+                    ctx.state()
+                    ctx.nontrivial()
+                    ok, bf = guarded(ctx, "showbias", case, call_showbias, rows, ncols, metric, threshold, how, cfg, 1)
+                    ctx.tick()
+                    if not ok:
+                        continue
+                    want, judged = normalise(tab, overall, how)
+                    got_cols = [int(c) for c in bf.values.columns.tolist()]
+                    if got_cols != tlist:
+                        ctx.fail("columns-are-the-thresholds", case, observed=got_cols, expected=tlist)
+                        continue
+                    got = table_of(bf.values)
+                    if set(got) != set(want):
+                        ctx.fail("rows-labelled-with-the-groups-of-their-rows", case, observed=sorted(map(repr, got)), expected=sorted(map(repr, want)))
+                        continue
+                    for key in want:
+                        for t in range(len(tlist)):
+                            g, w = got[key][t], want[key][t]
+                            if judged[t] and not ((math.isnan(g) and math.isnan(w)) or abs(g - w) <= 1e-12 * max(1.0, abs(w))):
+                                ctx.fail("entry-is-metric-of-that-groups-rows" if how is None else "normalised-entry",
+                                         dict(case, group=repr(key), threshold_value=tlist[t]), observed=g, expected=w)
+                                break
+    ctx.sample({"kind": "bigint", "base": base, "ncols": ncols})
+    return None
+
+
+def _run_wide_groups(item, ctx, b):
+    """Several group columns with many distinct values each: the product of the numbers of values per column
+    exceeds 2^31 although only nvals groups are present."""
+    from score_analysis import showbias
+
+    nv, ncols = item["nvals"], item["ncols"]
+    mult = [1, 7, 11][:ncols]
+    names = ["g%d" % j for j in range(ncols)]
+    keys, labs, scs = [], [], []
+    for i in range(nv):
+        key = tuple("%s%05d" % ("abc"[j], (i * mult[j]) % nv) for j in range(ncols))
+        for r in range(2 + (i % 3 == 0)):
+            keys.append(key)
+            labs.append(1 if (i + r) % 2 else 0)
+            scs.append(((i * 13 + r * 29) % 97) / 97.0)
+    df = pd.DataFrame({names[j]: [k[j] for k in keys] for j in range(ncols)})
+    df["lab"], df["sc"] = labs, scs
+    groups = {}
+    for k, l, s_ in zip(keys, labs, scs):
+        groups.setdefault(k, ([], []))[0 if l == 1 else 1].append(s_)
+    tl = [0.5, 0.25]
+    for cfg in CFGS[:2]:
+        for metric in ("tpr", "tn"):
+            case = {"kind": "wide_groups", "values_per_column": nv, "ncols": ncols, "groups": len(groups), "metric": metric,
+                    "cfg": list(cfg), "threshold": tl}
+            ctx.state()
+            ctx.nontrivial()
+            ok, bf = guarded(ctx, "showbias", case, lambda: showbias(df, names, "lab", "sc", metric, threshold=tl, score_class=cfg[0],
+                                                                     equal_class=cfg[1]))
+            ctx.tick(len(groups))
+            if not ok:
+                continue
+            got = table_of(bf.values)
+            if len(bf.values.index) != len(groups) or set(got) != set(groups):
+                extra = sorted(map(repr, set(got) - set(groups)))[:3]
+                ctx.fail("rows-labelled-with-the-groups-of-their-rows", case, observed={"rows": len(bf.values.index), "unknown_labels": extra},
+                         expected={"rows": len(groups)})
+                continue
+            for key, (p_, n_) in groups.items():
+                want = [fval(metric_value(refs.ref_cm(p_, n_, t, cfg[0], cfg[1]), metric)) for t in tl]
+                g = got[key]
+                if not all((math.isnan(a) and math.isnan(w)) or abs(a - w) <= 1e-12 for a, w in zip(g, want)):
+                    ctx.fail("entry-is-metric-of-that-groups-rows", dict(case, group=repr(key)), observed=g, expected=want)
+                    break
+    ctx.sample({"kind": "wide_groups", "values_per_column": nv, "ncols": ncols, "groups": len(groups)})
     return None
 
 
